@@ -46,9 +46,33 @@ def front_rule(index: RepoIndex, rep, rule: str, g=None, gi=None) -> None:
     af = index.func('gym_gridverse/agent.py', 'Agent.front')
     for o in g.orients:
         Tt = ('T', P('py', 'px'), ('O', o))
-        # an expression the pose algebra cannot interpret is not a verdict (exit 2)
-        r = gi.call(af, {af.node.args.args[0].arg: Tt})
         d = g.delta[o]
+        try:
+            r = gi.call(af, {af.node.args.args[0].arg: Tt})
+        except (AnalysisError, RecursionError) as err:
+            # an expression the symbolic pose algebra cannot read (a clamp, a guard on the
+            # sign of a coordinate): folded at constant poses instead.  A pose where the
+            # result is not one cell ahead is a counterexample (a verdict); agreement at every
+            # sampled pose proves nothing and the check stops (exit 2)
+            wit = None
+            for py in (0, 1, 4, -1, -2):
+                for px in (0, 1, 4, -1, -2):
+                    Tc = ('T', ('P', (Aff.const(py), Aff.const(px))), ('O', o))
+                    try:
+                        rc = gi.call(af, {af.node.args.args[0].arg: Tc})
+                    except (AnalysisError, RecursionError):
+                        raise AnalysisError(f'Agent.front: {err}')
+                    if rc != ('P', (Aff.const(py + d[0]), Aff.const(px + d[1]))) and \
+                            wit is None:
+                        wit = (py, px, rc)
+            if wit is None:
+                raise AnalysisError(f'Agent.front: {err}')
+            rep.violation(rule, 'gym_gridverse/agent.py', 'Agent.front', af.node.lineno,
+                          'Agent.front', f'Agent.front with heading {o} at position '
+                          f'({wit[0]}, {wit[1]}) is {wit[2]}, not one cell ahead '
+                          f'({wit[0] + d[0]}, {wit[1] + d[1]}): the faced cell of an agent on '
+                          f'the border is not the cell beyond it')
+            continue
         ok = r == ('P', (Aff.sym('py') + d[0], Aff.sym('px') + d[1]))
         rep.check(ok, rule, 'gym_gridverse/agent.py', 'Agent.front', af.node.lineno,
                   'Agent.front', f'Agent.front with heading {o} is {r}, not one cell ahead',
